@@ -82,7 +82,7 @@ PROFILES = {
     "blurry": Profile("blurry", W(adv=4, longadv=2, close=6, release=5, claim=5, claim_open=3, conn=4), napps=2, nsides=3, nnames=2, nmail=2),
     "restarts": Profile("restarts", W(restart=4, adv=5, longadv=1, reconn=4), napps=2, nsides=3, nnames=2, nmail=2, rephase=True),
     "dups": Profile("dups", W(resend=8, adv=3, restart=1, close=4, release=3), napps=1, nsides=3, nnames=2, nmail=2, dup=True),
-    "alloc": Profile("alloc", W(fill=10, alloc=14, release=6, claim=4, close=3, flow_step=8, flow_new=2, longadv=1, adv=2, conn=6), napps=2, nsides=3, nnames=5, nmail=2),
+    "alloc": Profile("alloc", W(fill=10, alloc=14, release=8, claim=4, close=3, flow_step=8, flow_new=2, longadv=1, adv=2, conn=6, restart=3), napps=2, nsides=3, nnames=5, nmail=2),
     "shared": Profile("shared", W(open=8, add=8, close=5, claim=2, flow_step=10, reconn=4, restart=2, adv=2, longadv=1), napps=2, nsides=2, nnames=2, nmail=1, cross_app_mailbox=True),
     "options": Profile("options", W(alloc=6, list=6, release=6, close=5, claim=5, longadv=1, restart=3), napps=2, nsides=3, nnames=3, nmail=2),
     "twoapps": Profile("twoapps", W(close=5, release=4, adv=3, longadv=1, restart=1, faultadv=1, faultadv2=3), napps=2, nsides=2, nnames=2, nmail=2),
